@@ -135,7 +135,81 @@ update = Contract('C10', F, 'MailboxData.update', variant='reference-model',
                   ],
                   raises_only=(IndexError, TypeError))
 
-CONTRACTS = [FL.flagop_apply, FL.perm_intersect, FL.sess_intersect, FL.sess_update, SS.get_range,
+# ---- MailboxDataInterface.find_deleted: EXPUNGE decides on the mailbox's messages, not on what the session saw last
+#
+# find() re-reads every addressed message from the backend; the \\Deleted decision must be taken on THOSE objects (their
+# flags as of now), in order, nothing else -- the selection's cached snapshots may predate another session's STORE.
+from pyvc.values import _t, _b  # noqa: E402
+import z3 as _z3  # noqa: E402
+_MbxI = RefS('MbxIface')
+FLAG_DELETED = VRef(_z3.Const('Flag.Deleted', D.Flag.z3()), D.Flag)
+_FLAGS_NOW = _z3.Function('Message.get_flags(now)', Msg.z3(), SetS(D.Flag).z3())
+_UID_OF = _z3.Function('Message.uid', Msg.z3(), _z3.IntSort())
+_FoundS = ListS(TupleS(INT, Msg))
+_f1 = TupleS(INT, Msg)._dt().accessor(0, 1)
+
+
+def _fd_find(ex, frame, e, base=None):
+    ex.eval_args(e, frame)
+    lst = _FoundS.fresh('found')
+    ex.assume(lst.n >= 0)
+    ex.st.ghost['found'] = lst
+    return lst
+
+
+def _fd_cached(ex, frame, e, base=None):
+    """selected.messages.get_all(...): the cached snapshots -- other objects than the ones find() yields"""
+    ex.eval_args(e, frame)
+    lst = _FoundS.fresh('cached')
+    ex.assume(lst.n >= 0)
+    return lst
+
+
+def _fd_sound(s):
+    found = s._st.ghost.get('found')
+    if found is None:
+        return VBool(False)             # find() was never asked
+    res = s.result
+    comp = getattr(unview(res) if hasattr(res, '_v') else res, 'comp', None)
+    j, i = _z3.Int(fresh_name('j')), _z3.Int(fresh_name('i'))
+    r = unview(res) if hasattr(res, '_v') else res
+    in_found = lambda t: _z3.Exists([i], _z3.And(i >= 0, i < found.n, _UID_OF(_f1(found.arr[i])) == t,
+                                                _z3.Select(_FLAGS_NOW(_f1(found.arr[i])), FLAG_DELETED.t)))
+    return VBool(_z3.ForAll([j], _z3.Implies(_z3.And(j >= 0, j < r.n), in_found(r.arr[j]))))
+
+
+def _fd_complete(s):
+    found = s._st.ghost.get('found')
+    if found is None:
+        return VBool(False)
+    r = unview(s.result) if hasattr(s.result, '_v') else s.result
+    comp = getattr(r, 'comp', None)
+    i, j = _z3.Int(fresh_name('i')), _z3.Int(fresh_name('j'))
+    if comp is not None:
+        src, inv, seq = comp
+        wit = inv(i)
+        hit = _z3.And(wit >= 0, wit < r.n, r.arr[wit] == _UID_OF(_f1(found.arr[i])))
+    else:
+        hit = _z3.Exists([j], _z3.And(j >= 0, j < r.n, r.arr[j] == _UID_OF(_f1(found.arr[i]))))
+    return VBool(_z3.ForAll([i], _z3.Implies(_z3.And(i >= 0, i < found.n,
+                                                     _z3.Select(_FLAGS_NOW(_f1(found.arr[i])), FLAG_DELETED.t)), hit)))
+
+
+from pyvc.engine import unview  # noqa: E402
+
+find_deleted = Contract(
+    'C10', 'pymap/backend/mailbox.py', 'MailboxDataInterface.find_deleted',
+    params=dict(self=_MbxI, seq_set=SEL.SeqSetS, selected=SEL.SEL), returns=ListS(INT), raises_only=(),
+    globals={'Deleted': FLAG_DELETED},
+    calls={'self.find': _fd_find, 'selected.messages.get_all': _fd_cached,
+           'msg.get_flags': lambda ex, frame, e, base=None: (ex.eval_args(e, frame), SetS(D.Flag).wrap(
+               _FLAGS_NOW(_t(base if base is not None else ex.eval(e.func.value, frame)))))[1]},
+    ensures=[('only_messages_find_yields_whose_flags_now_hold_deleted', _fd_sound),
+             ('every_such_message_is_returned', _fd_complete)],
+    modifies=[])
+find_deleted.attr_models = {('Msg', 'uid'): lambda ex, frame, ref: VInt(_UID_OF(ref.t))}
+
+CONTRACTS = [find_deleted, FL.flagop_apply, FL.perm_intersect, FL.sess_intersect, FL.sess_update, SS.get_range,
              SEL.get_uids, SEL.get_all, copy, move, delete, update]
 
 PROPERTY = Property(
